@@ -565,7 +565,7 @@ pub fn directed(ctx: &Ctx, want: &str) -> Report {
 
 /// Stage D: seeded random histories
 pub fn random(ctx: &Ctx, want: &str) -> Report {
-    let n_hist = ctx.budget(12, 20_000, 1_000_000);
+    let n_hist = ctx.budget(12, 60_000, 6_000_000);
     let shards = if ctx.tier == Tier::Small { 1 } else { 64usize };
     par_shards(ctx, shards, |s| {
         let mut rep = Report::new();
